@@ -1,0 +1,84 @@
+//go:build verif
+
+// Contracts for package sm, read by /verif/engine (govc). Comment-only.
+
+package sm
+
+//@ # ======================= gating (C10) =====================================
+//@ func (handshakeOK).ServeDIAM(f, c, m)
+//@   property C10
+//@   requires c != nil && f != nil
+//@   ensures [C10] never_before_the_handshake: !old(hs(c)) ==> fncalls() == old(fncalls())
+//@   ensures [C10] always_after_it: old(hs(c)) ==> fncalls() == old(fncalls()) + 1 && lastfn() == f && lastconn() == c && lastmsg() == m
+//@ end
+//@
+//@ # the state machine's own keys; everything else in its mux must be wrapped in handshakeOK
+//@ spec builtinName(s string) bool = s == "CER" || s == "CEA" || s == "DWR"
+//@ spec cerIdx() diam.CommandIndex = mk(diam.CommandIndex, 0, 257, true)
+//@ spec ceaIdx() diam.CommandIndex = mk(diam.CommandIndex, 0, 257, false)
+//@ spec dwrIdx() diam.CommandIndex = mk(diam.CommandIndex, 0, 280, true)
+//@ spec builtinIdx(k diam.CommandIndex) bool = k == cerIdx() || k == ceaIdx() || k == dwrIdx()
+//@ spec gated(s *StateMachine) bool = s != nil && s.mux != nil && s.mux.m != nil && s.mux.idxMap != nil &&
+//@      (forall n string :: has(s.mux.m, n) && !builtinName(n) ==> typeis(s.mux.m[n].h, handshakeOK)) &&
+//@      (forall k diam.CommandIndex :: has(s.mux.idxMap, k) && !builtinIdx(k) ==> typeis(s.mux.idxMap[k].h, handshakeOK))
+//@ spec samemaps(s *StateMachine) bool = (forall n string :: (has(s.mux.m, n) <==> old(has(s.mux.m, n))) && s.mux.m[n].h == old(s.mux.m[n].h)) &&
+//@      (forall k diam.CommandIndex :: (has(s.mux.idxMap, k) <==> old(has(s.mux.idxMap, k))) && s.mux.idxMap[k].h == old(s.mux.idxMap[k].h))
+//@
+//@ func (*StateMachine).Error(sm, err)
+//@   property C10
+//@   requires sm != nil && sm.mux != nil && !closed(sm.mux.e)
+//@   modifies reports()
+//@ end
+//@
+//@ func (*StateMachine).HandleFunc(sm, cmd, handler)
+//@   property C10
+//@   requires gated(sm) && handler != nil && !closed(sm.mux.e) && diam.ALL_CMD_INDEX == allidx()
+//@   modifies mapof(sm.mux.idxMap), mapof(sm.mux.m), wlocked(&sm.mux.mu), reports()
+//@   ensures [C10] still_gated: gated(sm)
+//@   ensures [C10] builtins_cannot_be_replaced: builtinName(cmd) ==> samemaps(sm)
+//@   ensures [C10] wrapped: !builtinName(cmd) && cmd != "ALL" ==> has(sm.mux.m, cmd) && typeis(sm.mux.m[cmd].h, handshakeOK) && sm.mux.m[cmd].h.(handshakeOK) == handler
+//@   ensures [C10] wrapped_catch_all: cmd == "ALL" ==> has(sm.mux.idxMap, allidx()) && typeis(sm.mux.idxMap[allidx()].h, handshakeOK) && sm.mux.idxMap[allidx()].h.(handshakeOK) == handler
+//@ end
+//@
+//@ func (*StateMachine).HandleIdx(sm, cmd, handler)
+//@   property C10
+//@   requires gated(sm) && handler != nil && !closed(sm.mux.e)
+//@   assume base_indexes: baseCERIdx == cerIdx() && baseCEAIdx == ceaIdx() && baseDWRIdx == dwrIdx()
+//@   modifies mapof(sm.mux.idxMap), wlocked(&sm.mux.mu), reports()
+//@   ensures [C10] still_gated: gated(sm)
+//@   ensures [C10] builtins_cannot_be_replaced: builtinIdx(cmd) ==> samemaps(sm)
+//@   ensures [C10] wrapped: !builtinIdx(cmd) ==> has(sm.mux.idxMap, cmd) && typeis(sm.mux.idxMap[cmd].h, handshakeOK)
+//@ end
+//@
+//@ func handleCER(sm) (h)
+//@   property C10 C11
+//@   modifies
+//@   ensures made: h != nil
+//@ end
+//@ func handleDWR(sm) (h)
+//@   property C10 C13
+//@   modifies
+//@   ensures made: h != nil
+//@ end
+//@ func PrepareSupportedApps(d) (apps)
+//@   property C11
+//@   trusted
+//@   modifies
+//@ end
+//@
+//@ func New(settings) (sm)
+//@   property C10
+//@   requires settings != nil
+//@   assume base_indexes: baseCERIdx == cerIdx() && baseCEAIdx == ceaIdx() && baseDWRIdx == dwrIdx() && diam.ALL_CMD_INDEX == allidx()
+//@   modifies settings.HostIPAddresses
+//@   ensures [C10] gated_from_the_start: sm != nil && fresh(sm) && gated(sm) && sm.cfg == settings && !closed(sm.mux.e)
+//@   ensures [C10] only_builtins_registered: (forall n string :: has(sm.mux.m, n) ==> builtinName(n)) && (forall k diam.CommandIndex :: has(sm.mux.idxMap, k) ==> builtinIdx(k))
+//@ end
+//@
+//@ func (*StateMachine).Handle(sm, cmd, handler)
+//@   property C10
+//@   requires gated(sm) && handler != nil && !closed(sm.mux.e) && diam.ALL_CMD_INDEX == allidx()
+//@   modifies mapof(sm.mux.idxMap), mapof(sm.mux.m), wlocked(&sm.mux.mu), reports()
+//@   ensures [C10] still_gated: gated(sm)
+//@   ensures [C10] builtins_cannot_be_replaced: builtinName(cmd) ==> samemaps(sm)
+//@ end
